@@ -25,7 +25,7 @@ func TestVerifC07Dedup(t *testing.T) {
 		dir, cleanup := simTempDir()
 		defer cleanup()
 		s := newSimSys(t, dir)
-		h := &simHist{s: s, opts: simHistOpts{MaxRounds: 9, Faults: true, Inline: true, KillAfter: true, Dedup: true, CacheActions: true,
+		h := &simHist{s: s, opts: simHistOpts{MaxRounds: 9, Faults: true, Inline: true, KillAfter: true, Dedup: true, CacheActions: true, HTTP: true,
 			Universe: rapid.SampledFrom([]int{6, 12, 30}).Draw(t, "universe")}}
 		var ackErr error
 		resub := map[string]int{}
@@ -80,6 +80,7 @@ func TestVerifC07Dedup(t *testing.T) {
 		add(multi > 0, "key-acked>=2-times")
 		add(st.InlineDupInSeq > 0, "dup-while-sequencing")
 		add(st.InlineCacheHits > 0, "inline-cache-hit")
+		add(h.HTTPAcks > 0, "sct-verified-over-http")
 		add(st.CacheRollbacks > 0, "cache-lost-or-rolled-back")
 		add(st.LegacyTables > 0, "legacy-table")
 		add(st.ToolRuns > 0, "recompute-tool")
@@ -87,6 +88,7 @@ func TestVerifC07Dedup(t *testing.T) {
 		dups := len(s.model) - len(h.firstOccurrences(int64(len(s.model))))
 		add(dups > 0, "duplicate-leaves-after-cache-loss")
 		rec.Add("acknowledgements", int64(len(s.acks)))
+		rec.Add("scts-verified", int64(h.HTTPAcks))
 		rec.Add("duplicate-leaves", int64(dups))
 		rec.Add("tool-runs", int64(st.ToolRuns))
 		rec.CaseSample(fmt.Sprintf("acks=%d %s", len(s.acks), strings.Join(st.Desc, "; ")), st.Desc, nt, cls...)
